@@ -323,4 +323,11 @@ PROPS['C16'].update({
     'level_note': 'Assumes itertools.combinations/chain, zip, list.sort (stable) contracts; the docstring parser is not verified, its resulting table is checked against the oracle.',
 })
 
+for _p in ('C01', 'C03', 'C05'):
+    PROPS[_p]['units'] = PROPS[_p]['units'] + ['matrices._pair_with', 'matrices.Relation.__new__']
+PROPS['C01']['units'] += ['contexts.__init__']
+PROPS['C01']['proved_part'] += ('; Vectors._pair_with binds the three closures (on the instance and on its bitset class) to the PairEnv of (self, other); Relation.__new__ creates two '
+                                'NEW bitset classes per relation and pairs both directions; Context.__init__ builds the Relation from (properties, objects, bools)')
+PROPS['C01']['bounded_part'] = 'bitsets library contracts (bitset() returns a new class, frombools/bools, frommembers/members, zip transposition); replay'
+
 NOT_APPLICABLE = {}
